@@ -1262,8 +1262,58 @@ def r1010(facts, res):
     res.floor(R, 'token regexes with quote characters', n, 1)
 
 
+def r1011(facts, res):
+    """A production's span ends where its last element ends.  In YaccParser::parse_rule the end is kept in an Option<usize> that
+    every branch of the symbol loop updates.  Decided: on every pass of the loop that consumed a token (parse_token was called)
+    the value left in that cell is Some(end position returned by the LAST parse_token call of the pass) - not the end of a
+    keyword in front of it (`%prec`), not an older position, not nothing."""
+    R = 'R10.11'
+    from lrstep import widening_walker
+    bs = [b for b in facts.lib_bodies(['cfgrammar']) if b.name == 'parse_rule' and b.kind != 'closure' and 'yacc::parser::YaccParser' in b.path]
+    if len(bs) != 1:
+        return res.lost(R, 'YaccParser::parse_rule not found (%d)' % len(bs))
+    b = bs[0]
+    cells = set()
+    for bb, t in b.calls_named('take'):
+        if 'option::Option' not in (callee_of(t).get('path') or ''):
+            continue
+        l = op_local(t['args'][0]) if t['args'] else None
+        if l is None:
+            continue
+        root = b.root(l, stop_named=False)[0]
+        if 'Option<usize>' in b.lty(root):
+            cells.add(root)
+    if len(cells) != 1:
+        return res.lost(R, 'parse_rule: the production-end cell (an Option<usize> that is `take`n for Span::new) not recognised (%d candidates)' % len(cells))
+    E = list(cells)[0]
+    w = widening_walker(b, facts, max_paths=40000)
+    ps = w.run(0)
+    if w.overflow:
+        return res.lost(R, 'path bound exceeded in parse_rule')
+    n, bad = 0, {}
+    for p in ps:
+        pts = p.calls(name='parse_token')
+        if not pts or p.end[0] != 'loop':
+            continue
+        n += 1
+        last = pts[-1]
+        v = p.env.get((E, ()))
+        line = b.term(last[1]).get('line')
+        if not (isinstance(v, tuple) and v and v[0] == 'variant' and v[3] == 'Some'):
+            bad.setdefault(line, 'the pass that consumed the token at line %s leaves the production end as it was' % line)
+        elif not term_has(v[4][0], lambda y: y == last[5]):
+            bad.setdefault(line, 'after the token consumed at line %s the production end is set to %s, not to the end of that token' % (line, fmt_term(v[4][0])[:90]))
+    key = 'prod-end-after-token'
+    if bad:
+        res.bad(R, key, loc_of(b), '; '.join(v for k, v in sorted(bad.items()))[:400] + ': the production span no longer covers the text that defines the production', {'function': b.path})
+    else:
+        res.ok(R, key, loc_of(b), 'on each of the %d loop passes that consume a token the production end becomes the end of the last token consumed' % n)
+    res.floor(R, 'loop passes of parse_rule that consume a token', n, 3)
+
+
 def run(facts, res):
     r107(facts, res)
+    r1011(facts, res)
     r1010(facts, res)
     r109(facts, res)
     r108(facts, res)
